@@ -162,6 +162,50 @@ _UF = {
 _NIN = {}
 
 
+def _ite(c, a, b):
+    if isinstance(c, PB):
+        return P(tm.mk('ite', c.t, L(a), L(b)))
+    return a if c else b
+
+
+def _clip(x, lo, hi):
+    r = x
+    if lo is not None:
+        r = _mx(r, lo)
+    if hi is not None:
+        r = _mn(r, hi)
+    return r
+
+
+def _heaviside(x, h0):
+    if _issym(x) or _issym(h0):
+        return _ite(x < 0, 0.0, _ite(x > 0, 1.0, h0))
+    x = _num(x)
+    return 0.0 if x < 0 else (1.0 if x > 0 else h0)
+
+
+def _cbrt(x):
+    if isinstance(x, P):
+        raise UnsupportedOp('cbrt of a symbolic value')
+    return math.copysign(abs(x) ** (1.0 / 3.0), x)
+
+
+_UF.update({
+    _np.clip: _clip, _np.hypot: lambda a, b: _sqrt(a * a + b * b), _np.heaviside: _heaviside,
+    _np.reciprocal: lambda a: 1 / a, _np.cbrt: _cbrt,
+    # symbolic values range over the reals (finiteness is the definedness side of every query)
+    _np.isfinite: lambda x: True if _issym(x) else math.isfinite(x),
+    _np.isinf: lambda x: False if _issym(x) else math.isinf(x),
+    _np.float_power: _pow,
+})
+if hasattr(_np, 'divide'):
+    _UF[_np.divide] = op.truediv
+for _modname in ('core', '_core'):
+    _um = getattr(getattr(_np, _modname, None), 'umath', None)
+    if _um is not None and hasattr(_um, 'clip'):
+        _UF[_um.clip] = _clip
+
+
 def _plain(x):
     """plain ndarray view / 0-d object box, so that frompyfunc never re-enters the protocol"""
     if isinstance(x, _np.ndarray):
@@ -184,6 +228,8 @@ def _wrap(r):
 
 
 def _array_ufunc(ufunc, method, *inputs, out=None, **kw):
+    if ufunc is _np.matmul and method == '__call__' and out is None:
+        return _wrap(_np.dot(_np.asarray(_plain(inputs[0]), dtype=object), _np.asarray(_plain(inputs[1]), dtype=object)))
     if ufunc not in _UF:
         raise UnsupportedOp('ufunc %s not modelled' % ufunc.__name__)
     f = _UF[ufunc]
@@ -276,6 +322,12 @@ class SymArray(_np.ndarray):
         if self.size == 1:
             return float(self.flat[0])
         raise TypeError('only size-1 arrays')
+
+    def astype(self, dtype, *a, **k):
+        # doubles are modelled by exact reals: a conversion to a float type keeps the symbolic entries
+        if dtype in (float, _np.float64, _np.double, object, 'float', 'float64', 'd', 'f8'):
+            return self.copy()
+        return _np.ndarray.astype(self, dtype, *a, **k)
 
 
 def sa(x):
@@ -560,8 +612,55 @@ def solve(M, b):
 
 linalg.solve = solve
 
+_FLOATS = (None, float, _np.float64, _np.double, object, 'float', 'float64', 'd', 'f8')
+
+
+def _mk_array(real):
+    def f(x, dtype=None, *a, **k):
+        try:
+            isf = dtype in _FLOATS
+        except TypeError:
+            isf = False
+        if isf and anysym(x):
+            r = sa(x)
+            return r.copy() if (real is _np.array and k.get('copy', True)) else r
+        return real(x, dtype, *a, **k) if dtype is not None else real(x, *a, **k)
+    f.__name__ = real.__name__
+    return f
+
+
+array = _mk_array(_np.array)
+asarray = _mk_array(_np.asarray)
+ascontiguousarray = _mk_array(_np.ascontiguousarray)
+asanyarray = _mk_array(_np.asanyarray)
+
+
+def select(condlist, choicelist, default=0):
+    r = default
+    for c, v in reversed(list(zip(condlist, choicelist))):
+        r = where(c, v, r)
+    return r
+
+
+def isclose(a, b, rtol=1e-05, atol=1e-08, equal_nan=False):
+    if anysym(a, b):
+        return abs(a - b) <= atol + rtol * abs(b)
+    return _np.isclose(a, b, rtol, atol, equal_nan)
+
+
+def allclose(a, b, rtol=1e-05, atol=1e-08, equal_nan=False):
+    if anysym(a, b):
+        return _all(isclose(a, b, rtol, atol))
+    return _np.allclose(a, b, rtol, atol, equal_nan)
+
+
+def nan_to_num(x, *a, **k):
+    return x if anysym(x) else _np.nan_to_num(x, *a, **k)
+
+
 for _n, _f in dict(zeros=zeros, ones=ones, zeros_like=zeros_like, ones_like=ones_like, full_like=full_like,
                    empty=empty, linspace=linspace, where=where, sum=asum, min=amin, max=amax, amin=amin,
                    amax=amax, average=average, einsum=einsum, isnan=isnan, any=_any, all=_all,
-                   linalg=linalg).items():
+                   linalg=linalg, array=array, asarray=asarray, ascontiguousarray=ascontiguousarray, asanyarray=asanyarray,
+                   select=select, isclose=isclose, allclose=allclose, nan_to_num=nan_to_num).items():
     setattr(np, _n, _f)
